@@ -59,6 +59,10 @@ impl Ipv4Packet {
         let version_ihl = rawdata[off] & 0xF;
         let version = (rawdata[off] >> 4) & 0xF;
         let ihl = version_ihl & 0xF;
+        // The header (with options) must fit in the captured bytes
+        if rawdata.len() < off + ihl as usize * 4 {
+            return Err(PacketError::InvalidLength(rawdata.len()));
+        }
         let dscp_ecn = rawdata[off + 1];
         let dscp = dscp_ecn >> 2;
         let ecn = dscp_ecn & 0x03;
